@@ -67,6 +67,8 @@ def run(ctx):
         progs.append(("loop-sequences", lang.two_loops_program(rng)))
         progs.append(("struct-order", lang.struct_order_program(rng)))
         progs.append(("bytes", lang.bytes_program(rng)))
+        progs.append(("array-builtins", lang.array_ops_program(rng)))
+        progs.append(("scoping-in-functions", lang.scoping_shadowed(rng)))
     for k in range(24 if quick else 200):
         progs.append(("big-function", big_function_program(rng, rng.choice([4096, 4096, 8192]) + rng.randint(-60, 60))))
     with tempfile.TemporaryDirectory(prefix="nvc04", dir="/var/tmp") as td:
